@@ -407,6 +407,15 @@ def run(cfg, ops=None, rng=None):
                 )
             model.load(snap_a)
             step += 1
+        if prop == "C18" and res.violation is None and not res.stats.get("runs_ended_by_stack_exhaustion") and res.steps % 3 == 0:
+            # the same tree-lifetime in both universes: a node keeps its whole tree alive
+            ea = eb = fa = fb = la = lb = snap_a = None
+            from .queries import lifetime_probe
+
+            ba, bb = lifetime_probe(wa), lifetime_probe(wb)
+            res.bump("lifetime_probes")
+            if ba != bb:
+                raise Violation(prop, "lifetime", step, "lifetime", "at the end of the run: first universe: %s; second universe: %s" % (ba or "whole tree alive", bb or "whole tree alive"))
     except Violation as v:
         res.violation = v
     finally:
